@@ -56,6 +56,8 @@ def race(script, n_expected=1, timeout=60.0, solvers=None, need_all=False):
     """Runs `script` (containing n_expected check-sat commands) on the portfolio.
     Returns (answers list, solver name, secs, per-solver dict).  answers[i] in sat/unsat/unknown."""
     solvers = solvers or DEFAULT
+    if '(set-logic' not in script:
+        script = '(set-logic ALL)\n' + script
     box = {}
     stop = threading.Event()
     wall = timeout * max(1, n_expected) + 5 if n_expected <= 4 else timeout * 4 + 10 + 0.05 * n_expected
@@ -128,6 +130,8 @@ def check(script, timeout=60.0, solvers=None, need_all=False):
 
 def get_model(script, names, timeout=60.0, solvers=None):
     """script without check-sat; returns dict name -> int (bit-vectors/ints/bools) or None"""
+    if '(set-logic' not in script:
+        script = '(set-logic ALL)\n' + script
     q = script + '\n(check-sat)\n(get-value (' + ' '.join(names) + '))\n'
     for s in (solvers or DEFAULT):
         try:
